@@ -61,6 +61,8 @@ CONSTANTS
   COOP,           \* TRUE: cooperative scheduling of a current_thread runtime (replay mode):
                   \*       a task keeps the CPU until its next pending await; external events
                   \*       (gates, timers, user calls) only happen when everything is blocked
+  LINGER,         \* TRUE: a finished API caller keeps its clone of the manager until Release
+                  \*       (trace validation: the instant of the release is not observable)
   RECLAIM,        \* TRUE: deferred drop of removed map entries may happen (cancels the orphan)
   USED            \* TRUE: track was_used_in_idle_period (idle check re-arms when set);
                   \* FALSE: over-approximation, an idle check may exit whenever the worker sleeps
@@ -77,16 +79,17 @@ VARIABLES
   wpc, wkey, init, ongoing, err, active, used, fetches,
   userHeld,   \* the user still holds (a clone of) the MultiPathManager
   cpc, h, notified, res,
+  linger,     \* finished API callers that still hold their clone of the manager (LINGER only)
   runC, runW  \* COOP only: the caller / worker task that holds the CPU ("none" / 0: CPU free)
 
 wvars == <<wpc, wkey, init, ongoing, err, active, used, fetches>>
-cvars == <<cpc, h, notified, res>>
+cvars == <<cpc, h, notified, res, linger>>
 mvars == <<managed, limbo, removed, cancelled, userHeld>>
 running == <<runC, runW>>
 vars  == <<mvars, wvars, cvars, running>>
 
 WPC == {"unborn", "spawned", "fetching", "finishing", "sleeping", "exiting", "exitnotify", "clearing", "dead"}
-CPC == {"idle", "armed", "contains", "ensure", "insert", "have", "check", "late", "waiting", "final", "done"}
+CPC == {"idle", "contains", "ensure", "insert", "have", "check", "late", "waiting", "final", "done"}
 
 TypeOK ==
   /\ managed \in [Keys -> Workers \cup {None}]
@@ -102,6 +105,7 @@ TypeOK ==
   /\ h \in [Callers -> Workers \cup {None}]
   /\ notified \in [Callers -> BOOLEAN]
   /\ res \in [Callers -> {"", "path", "error", "none", "cancelled"}]
+  /\ linger \subseteq Callers
   /\ runC \in Callers \cup {"none"} /\ runW \in Workers \cup {None}
 
 Init ==
@@ -118,6 +122,7 @@ Init ==
   /\ h = [c \in Callers |-> None]
   /\ notified = [c \in Callers |-> FALSE]
   /\ res = [c \in Callers |-> ""]
+  /\ linger = {}
   /\ runC = "none" /\ runW = None
 
 -----------------------------------------------------------------------------
@@ -126,7 +131,7 @@ Api(c) == Kind[c] \in {"wait", "cached"}
 InFlight(c) == cpc[c] \notin {"idle", "done"}
 \* strong references to the manager
 Alive == \/ userHeld
-         \/ \E c \in Callers : Api(c) /\ InFlight(c)
+         \/ \E c \in Callers : Api(c) /\ (InFlight(c) \/ c \in linger)
          \/ \E w \in Workers : wpc[w] \in {"fetching", "finishing"}
 Live(w) == wpc[w] \notin {"unborn", "dead"}
 Unborn == {w \in Workers : wpc[w] = "unborn"}
@@ -142,6 +147,15 @@ RemoveKey(k) ==
   ELSE /\ managed' = [managed EXCEPT ![k] = None]
        /\ limbo' = limbo \cup {managed[k]}
        /\ removed' = removed \cup {managed[k]}
+
+\* outcomes of the lock-free reads of a caller, as <<next pc, result>> (shared with the
+\* trace specification, which re-evaluates them at other instants)
+Hit(c) == LET w == managed[KeyOf[c]] IN w # None /\ active[w]
+StartOutcome(c) == IF Hit(c) THEN <<"done", "path">>
+                   ELSE IF Kind[c] = "cached" THEN <<"contains", "">> ELSE <<"ensure", "">>
+ContainsOutcome(c) == IF managed[KeyOf[c]] # None THEN <<"done", "none">> ELSE <<"ensure", "">>
+LoadOutcome(w) == IF active[w] THEN <<"done", "path">> ELSE <<"check", "">>
+FinalOutcome(w) == IF active[w] THEN <<"done", "path">> ELSE <<"done", "error">>
 
 -----------------------------------------------------------------------------
 (* cooperative scheduling (COOP): tasks are callers, workers; "dir" = the harness director *)
@@ -178,7 +192,7 @@ Finish(w) ==
   /\ ongoing' = [ongoing EXCEPT ![w] = FALSE]
   /\ init' = [init EXCEPT ![w] = TRUE]
   /\ notified' = Notify(w)
-  /\ UNCHANGED <<wkey, err, active, used, fetches, mvars, cpc, h, res>>
+  /\ UNCHANGED <<wkey, err, active, used, fetches, mvars, cpc, h, res, linger>>
   /\ WSched(w)
 
 \* select!: cancel token fired, or the manager is gone (issue channel closed / upgrade fails)
@@ -205,7 +219,7 @@ ExitNotify(w) ==
   /\ init' = [init EXCEPT ![w] = TRUE]
   /\ err' = [err EXCEPT ![w] = TRUE]
   /\ notified' = IF EXIT_NOTIFY THEN Notify(w) ELSE notified
-  /\ UNCHANGED <<wkey, active, used, fetches, mvars, cpc, h, res>>
+  /\ UNCHANGED <<wkey, active, used, fetches, mvars, cpc, h, res, linger>>
   /\ WSched(w)
 
 \* exit path 3: active_path.store(None); task ends
@@ -220,12 +234,13 @@ ExitClear(w) ==
 (* callers *)
 
 Done(c, r) == /\ cpc' = [cpc EXCEPT ![c] = "done"] /\ res' = [res EXCEPT ![c] = r]
+              /\ linger' = IF LINGER /\ Api(c) THEN linger \cup {c} ELSE linger
 
 \* fast_ensure_managed_paths: contains()
 Contains(c) ==
   /\ cpc[c] = "contains"
-  /\ IF managed[KeyOf[c]] # None THEN Done(c, "none")
-     ELSE cpc' = [cpc EXCEPT ![c] = "ensure"] /\ UNCHANGED res
+  /\ IF ContainsOutcome(c)[1] = "done" THEN Done(c, ContainsOutcome(c)[2])
+     ELSE cpc' = [cpc EXCEPT ![c] = ContainsOutcome(c)[1]] /\ UNCHANGED <<res, linger>>
   /\ UNCHANGED <<mvars, wvars, h, notified>>
   /\ CSched(c)
 
@@ -234,7 +249,7 @@ Spawn(w, k) ==
   /\ wkey' = [wkey EXCEPT ![w] = k]
 
 AfterEnsure(c) == IF Kind[c] = "cached" THEN Done(c, "none")
-                  ELSE cpc' = [cpc EXCEPT ![c] = "have"] /\ UNCHANGED res
+                  ELSE cpc' = [cpc EXCEPT ![c] = "have"] /\ UNCHANGED <<res, linger>>
 
 \* ensure_managed_paths: entry_sync => occupied: clone handle; vacant: PathSet::new + manage()
 Ensure(c) ==
@@ -252,7 +267,7 @@ Ensure(c) ==
                   /\ h' = [h EXCEPT ![c] = w]
                /\ AfterEnsure(c)
           ELSE /\ cpc' = [cpc EXCEPT ![c] = "insert"]
-               /\ UNCHANGED <<managed, wpc, wkey, h, res>>
+               /\ UNCHANGED <<managed, wpc, wkey, h, res, linger>>
   /\ UNCHANGED <<limbo, removed, cancelled, userHeld, init, ongoing, err, active, used, fetches, notified>>
   /\ CSched(c)
 
@@ -275,8 +290,8 @@ InsertLate(c) ==
 ActiveLoad(c) ==
   /\ cpc[c] = "have"
   /\ used' = IF USED THEN [used EXCEPT ![h[c]] = TRUE] ELSE used
-  /\ IF active[h[c]] THEN Done(c, "path")
-     ELSE cpc' = [cpc EXCEPT ![c] = "check"] /\ UNCHANGED res
+  /\ IF LoadOutcome(h[c])[1] = "done" THEN Done(c, LoadOutcome(h[c])[2])
+     ELSE cpc' = [cpc EXCEPT ![c] = LoadOutcome(h[c])[1]] /\ UNCHANGED <<res, linger>>
   /\ UNCHANGED <<mvars, wpc, wkey, init, ongoing, err, active, fetches, h, notified>>
   /\ CSched(c)
 
@@ -289,7 +304,7 @@ CheckReg(c) ==
           THEN /\ cpc' = [cpc EXCEPT ![c] = "waiting"]
                /\ notified' = [notified EXCEPT ![c] = FALSE]
           ELSE cpc' = [cpc EXCEPT ![c] = "late"] /\ UNCHANGED notified
-  /\ UNCHANGED <<mvars, wvars, h, res>>
+  /\ UNCHANGED <<mvars, wvars, h, res, linger>>
   /\ CSched(c)
 
 \* mutant only: the Notified future is created after the lock was released
@@ -297,19 +312,19 @@ RegisterLate(c) ==
   /\ cpc[c] = "late"
   /\ cpc' = [cpc EXCEPT ![c] = "waiting"]
   /\ notified' = [notified EXCEPT ![c] = FALSE]
-  /\ UNCHANGED <<mvars, wvars, h, res>>
+  /\ UNCHANGED <<mvars, wvars, h, res, linger>>
   /\ CSched(c)
 
 Wake(c) ==
   /\ cpc[c] = "waiting" /\ notified[c]
   /\ cpc' = [cpc EXCEPT ![c] = "final"]
-  /\ UNCHANGED <<mvars, wvars, h, notified, res>>
+  /\ UNCHANGED <<mvars, wvars, h, notified, res, linger>>
   /\ CSched(c)
 
 \* after waiting: load active path, else current_error (or NoPathsFound): an error result
 Final(c) ==
   /\ cpc[c] = "final"
-  /\ Done(c, IF active[h[c]] THEN "path" ELSE "error")
+  /\ Done(c, FinalOutcome(h[c])[2])
   /\ UNCHANGED <<mvars, wvars, h, notified>>
   /\ CSched(c)
 
@@ -340,7 +355,7 @@ FetchReturn(w, o) ==
 
 \* maintenance tick at next_idle_check: used flag set => re-arm, else exit "idle"
 IdleCheck(w) ==
-  /\ ExtOK
+  /\ ExtOK /\ ~COOP
   /\ wpc[w] = "sleeping" /\ Alive
   /\ IF USED /\ used[w]
      THEN /\ used' = [used EXCEPT ![w] = FALSE] /\ UNCHANGED wpc
@@ -350,7 +365,7 @@ IdleCheck(w) ==
 
 \* replay mode: time passes until the worker goes idle (one or two idle checks)
 IdleExpire(w) ==
-  /\ ExtOK
+  /\ ExtOK /\ COOP
   /\ wpc[w] = "sleeping" /\ Alive
   /\ used' = [used EXCEPT ![w] = FALSE]
   /\ wpc' = [wpc EXCEPT ![w] = "exiting"]
@@ -370,15 +385,13 @@ Refetch(w) ==
 \* path()/cached_path(): peek_with(..., try_active_path): sets the used flag, loads active
 Start(c) ==
   /\ ExtOK
-  /\ Api(c)
-  /\ \/ cpc[c] = "idle" /\ userHeld
-     \/ cpc[c] = "armed"     \* trace validation only: the task was spawned with its own clone
+  /\ cpc[c] = "idle" /\ Api(c) /\ userHeld
   /\ LET w == managed[KeyOf[c]] IN
      /\ used' = IF w # None /\ USED THEN [used EXCEPT ![w] = TRUE] ELSE used
-     /\ IF w # None /\ active[w]
-        THEN Done(c, "path")
-        ELSE /\ cpc' = [cpc EXCEPT ![c] = IF Kind[c] = "cached" THEN "contains" ELSE "ensure"]
-             /\ UNCHANGED res
+     /\ IF StartOutcome(c)[1] = "done"
+        THEN Done(c, StartOutcome(c)[2])
+        ELSE /\ cpc' = [cpc EXCEPT ![c] = StartOutcome(c)[1]]
+             /\ UNCHANGED <<res, linger>>
   /\ UNCHANGED <<mvars, wpc, wkey, init, ongoing, err, active, fetches, h, notified>>
   /\ CSched(c)
 
@@ -388,7 +401,7 @@ GetHandle(c, w) ==
   /\ cpc[c] = "idle" /\ Kind[c] = "handle" /\ wpc[w] # "unborn"
   /\ h' = [h EXCEPT ![c] = w]
   /\ cpc' = [cpc EXCEPT ![c] = "have"]
-  /\ UNCHANGED <<mvars, wvars, notified, res>>
+  /\ UNCHANGED <<mvars, wvars, notified, res, linger>>
   /\ CSched(c)
 
 \* the caller's future is dropped while pending (path_timeout elapsed)
@@ -398,6 +411,13 @@ CancelWait(c) ==
   /\ Done(c, "cancelled")
   /\ UNCHANGED <<mvars, wvars, h, notified>>
   /\ CSched(c)
+
+\* LINGER only: the owner of a finished call drops its clone of the manager
+Release(c) ==
+  /\ ExtOK
+  /\ c \in linger
+  /\ linger' = linger \ {c}
+  /\ UNCHANGED <<mvars, wvars, cpc, h, notified, res, running>>
 
 Stop(k) ==
   /\ ExtOK
@@ -420,9 +440,9 @@ Reclaim(w) ==
   /\ UNCHANGED <<managed, removed, userHeld, wvars, cvars, running>>
 
 External ==
-  \/ \E c \in Callers : Start(c) \/ CancelWait(c) \/ (\E w \in Workers : GetHandle(c, w))
+  \/ \E c \in Callers : Start(c) \/ CancelWait(c) \/ Release(c) \/ (\E w \in Workers : GetHandle(c, w))
   \/ \E w \in Workers : (\E o \in Outcomes : FetchReturn(w, o)) \/ Refetch(w) \/ Reclaim(w)
-                        \/ (IF COOP THEN IdleExpire(w) ELSE IdleCheck(w))
+                        \/ IdleExpire(w) \/ IdleCheck(w)
   \/ \E k \in Keys : Stop(k)
   \/ Drop
 
